@@ -173,9 +173,17 @@ def explore(ctx, scale=1.0):
                         k = rng.choice([1, 2, 3, 7, 255, 256, 257, 300]) if rng.random() < .5 else rng.randint(1, 40)
                     txt = invalid_map(k)
                 else:
-                    txt = rng.choice(['MAP\n  NAME "broken\nEND', "MAP NAME END END", "LAYER ; END", 'MAP "x" END'])
-                with open(fn, "w", encoding="utf-8") as f:
-                    f.write(txt)
+                    # a file that cannot be loaded, for whatever reason: a syntax error, bytes that are not UTF-8, an INCLUDE of a
+                    # missing file, an INCLUDE of itself (MaxNested) — each is one problem, none may end the run
+                    txt = rng.choice(['MAP\n  NAME "broken\nEND', "MAP NAME END END", "LAYER ; END", 'MAP "x" END',
+                                      b'MAP\n  NAME "caf\xe9"\nEND\n', b'\xff\xfeM\x00A\x00P\x00', 'MAP\n  INCLUDE "no-such-file.map"\nEND\n',
+                                      f'MAP\n  INCLUDE "m{j}.map"\nEND\n'])
+                if isinstance(txt, bytes):
+                    with open(fn, "wb") as f:
+                        f.write(txt)
+                else:
+                    with open(fn, "w", encoding="utf-8") as f:
+                        f.write(txt)
                 files.append(fn)
                 try:
                     dd = mappyfile.open(fn, include_position=True)
